@@ -156,6 +156,15 @@ def overlay(prog, rep):
     rep.check(not dels, "OVERLAY", fi.short, "no deletion", "no key of the defaults is deleted", f"keys of the first argument are deleted ({norm(dels[0]) if dels else ''})", fi.loc())
     if any(isinstance(n, (ast.Break, ast.Return)) for n in ast.walk(lp)):
         rep.violation("OVERLAY", fi.short, "loop", "the key loop can stop before every key of the user's document was merged", fi.loc(lp))
+    nested = [n for n in ast.walk(lp) if isinstance(n, (ast.For, ast.While)) and n is not lp]
+    if nested:
+        nl = nested[0]
+        edits = [n for n in ast.walk(nl) if (isinstance(n, (ast.Assign, ast.AugAssign)) and any(isinstance(t, ast.Subscript) for t in (n.targets if isinstance(n, ast.Assign) else [n.target]))) or (isinstance(n, ast.Call) and isinstance(n.func, ast.Attribute) and n.func.attr in ("append", "extend", "insert", "update", "setdefault")) or (isinstance(n, ast.Call) and norm(n.func) == fi.name)]
+        if edits:
+            rep.violation("OVERLAY", fi.short, "per-key handling with a loop of its own", f"a branch of the key loop walks over a value element by element and edits it in place (`{norm(edits[0])[:60]}` inside `{norm(nl).splitlines()[0][:60]}`): for a key both documents have, whose values are not both tables, the result must be the user's value as a whole -- an element-wise merge keeps elements of the default the user did not write (a shorter or empty user array leaves the default's tail in force)", fi.loc(edits[0]))
+        else:
+            rep.undecided("OVERLAY", fi.short, "per-key handling with a loop of its own", f"`{norm(nl).splitlines()[0][:60]}`", fi.loc(nl))
+        return
     env = Env(fi, prog, inline_locals=False)
     sums, _ = summarize(fi=None, body=lp.body, env=env)
     A, B = Form.atom(f"{a}[{k}]"), Form.atom(f"{b}[{k}]")
@@ -331,6 +340,7 @@ def check(prog, rep):
 
 
 VARIANTS = [
+    ("B arrays present in both documents are merged position by position", "aw_core/config.py", "            elif a[key] == b[key]:\n                pass  # same leaf value\n", "            elif isinstance(a[key], list) and isinstance(b[key], list):\n                for i, item in enumerate(b[key]):\n                    if i < len(a[key]):\n                        a[key][i] = item\n                    else:\n                        a[key].append(item)\n            elif a[key] == b[key]:\n                pass  # same leaf value\n", "OVERLAY"),
     ("B write before the existence test", C, "    # Override defaults from existing config file\n    if os.path.isfile(config_file_path):\n        with open(config_file_path) as f:\n            config = f.read()\n        config_toml = tomlkit.parse(config)\n    else:", "    if not default_config_toml:\n        with open(config_file_path, \"w\") as f:\n            f.write(default_config)\n    if os.path.isfile(config_file_path):\n        with open(config_file_path) as f:\n            config = f.read()\n        config_toml = tomlkit.parse(config)\n    else:", "NO-CLOBBER"),
     ("B rewrites the user's file after loading", C, "    config = _merge(default_config_toml, config_toml)\n", "    config = _merge(default_config_toml, config_toml)\n    save_config_toml(appname, tomlkit.dumps(config))\n", "NO-CLOBBER"),
     ("B file opened r+ on the exists branch", C, "        with open(config_file_path) as f:\n            config = f.read()\n        config_toml", "        with open(config_file_path, \"r+\") as f:\n            config = f.read()\n        config_toml", "NO-CLOBBER"),
